@@ -97,6 +97,106 @@ def dupInMembers : List (String × JVal) → Bool
   | kv :: r => kv.2.dupDeep || dupInMembers r
 end
 
+/-! ### `findDuplicateKey` as the token state machine it is
+
+The Go function walks `json.Decoder` tokens with an explicit stack of frames (one per open object /
+array; an object frame holds the names seen and whether a member name is expected next). The
+machine below is a transcription; what each delimiter does to the stack is read from the source
+(`Facts.c18DupScannerDelims`). `Props/C18.lean` proves that it computes `JVal.dupDeep` for ALL
+documents (`scanner_computes_dupDeep`). -/
+
+inductive Tok | lbrace | rbrace | lbrack | rbrack | str (s : String) | other
+  deriving DecidableEq, Repr
+
+mutual
+/-- the tokens `json.Decoder.Token` yields for a document -/
+def JVal.tokens : JVal → List Tok
+  | .null => [.other]
+  | .bool _ => [.other]
+  | .num _ => [.other]
+  | .str s => [.str s]
+  | .arr xs => .lbrack :: (tokensList xs ++ [.rbrack])
+  | .obj kvs => .lbrace :: (tokensMembers kvs ++ [.rbrace])
+def tokensList : List JVal → List Tok
+  | [] => []
+  | x :: r => x.tokens ++ tokensList r
+def tokensMembers : List (String × JVal) → List Tok
+  | [] => []
+  | kv :: r => .str kv.1 :: (kv.2.tokens ++ tokensMembers r)
+end
+
+/-- `frame`: `keys = none` for an array -/
+structure Frame where
+  keys : Option (List String)
+  expectKey : Bool
+  deriving DecidableEq, Repr
+
+inductive Act | pushObject | pushArray | pop | rearm
+  deriving DecidableEq, Repr
+
+def actOf : String → Option Act
+  | "pushObject" => some .pushObject
+  | "pushArray" => some .pushArray
+  | "pop" => some .pop
+  | "rearm" => some .rearm
+  | _ => none
+
+/-- the stack, top first -/
+def applyAct (st : List Frame) : Act → List Frame
+  | .pushObject => ⟨some [], true⟩ :: st
+  | .pushArray => ⟨none, false⟩ :: st
+  | .pop => st.tail
+  | .rearm =>
+    match st with
+    | f :: r => if f.keys.isSome then { f with expectKey := true } :: r else f :: r
+    | [] => []
+
+/-- what the four delimiters do -/
+structure DelimTable where
+  lbrace : List Act
+  lbrack : List Act
+  rbrace : List Act
+  rbrack : List Act
+  deriving DecidableEq, Repr
+
+/-- the table as the switch of the source says it: the case of the delimiter, else `default`;
+an action the extractor did not recognise empties the entry -/
+def tableOf (rows : List (String × List String)) : DelimTable :=
+  let acts (label : String) : List Act :=
+    let names := (rows.lookup label).getD ((rows.lookup "default").getD [])
+    if names.all (fun n => (actOf n).isSome) then names.filterMap actOf else []
+  ⟨acts "{", acts "[", acts "}", acts "]"⟩
+
+def canonTable : DelimTable := ⟨[.pushObject], [.pushArray], [.pop, .rearm], [.pop, .rearm]⟩
+
+/-- one token; `none`: a repeated member name was found -/
+def tokStep (tbl : DelimTable) (st : List Frame) : Tok → Option (List Frame)
+  | .lbrace => some (tbl.lbrace.foldl applyAct st)
+  | .lbrack => some (tbl.lbrack.foldl applyAct st)
+  | .rbrace => some (tbl.rbrace.foldl applyAct st)
+  | .rbrack => some (tbl.rbrack.foldl applyAct st)
+  | t =>
+    match st with
+    | [] => some []
+    | f :: r =>
+      match f.keys with
+      | none => some (f :: r)
+      | some ks =>
+        if f.expectKey then
+          let key := match t with | .str s => s | _ => ""      -- `key, _ := tok.(string)`
+          if ks.contains key then none else some (⟨some (key :: ks), false⟩ :: r)
+        else some (⟨some ks, true⟩ :: r)                       -- a scalar member value
+
+def scan (tbl : DelimTable) (st : List Frame) : List Tok → Bool
+  | [] => false
+  | t :: r =>
+    match tokStep tbl st t with
+    | none => true
+    | some st' => scan tbl st' r
+
+/-- `findDuplicateKey(content)` reports a duplicate -/
+def scanDup (p : JVal) : Bool := scan (tableOf Facts.c18DupScannerDelims) [] p.tokens
+
 /-! ### encoding/json: field selection -/
 
 /-- simple case folding as far as it can reach an ASCII field name: ASCII letters, U+017F (long s)
